@@ -26,6 +26,28 @@ func argToOptsKeyVal(key interface{}) string {
 	return keyVal
 }
 
+// copy returns a duplicate of the options set that shares no state with o.
+func (o *Options) copy() *Options {
+	c := &Options{
+		Format:             o.Format,
+		UnserializeOptions: o.UnserializeOptions,
+		RetrieveOptions:    o.RetrieveOptions,
+		formatOptions:      make(map[string]interface{}, len(o.formatOptions)),
+	}
+	if o.UnserializeOptions != nil {
+		uo := *o.UnserializeOptions
+		c.UnserializeOptions = &uo
+	}
+	if o.RetrieveOptions != nil {
+		ro := *o.RetrieveOptions
+		c.RetrieveOptions = &ro
+	}
+	for k, v := range o.formatOptions {
+		c.formatOptions[k] = v
+	}
+	return c
+}
+
 func (o *Options) GetFormatOptions(key interface{}) interface{} {
 	keyVal := argToOptsKeyVal(key)
 	if _, ok := o.formatOptions[keyVal]; ok {
